@@ -49,36 +49,37 @@ where
     let rand = rng.bytes(2 * n * 32);
     let nonce: [u8; 16] = rng.bytes(16).try_into().unwrap();
     let key: [u8; 32] = rng.bytes(32).try_into().unwrap();
-    fn run<V: TestVectorClient<16> + Aggregator<32, 16, AggregationParam = ()> + Collector>(v: &V, m: &V::Measurement, rand: &[u8], nonce: &[u8; 16], key: &[u8; 32]) -> Option<(Vec<u8>, Vec<Vec<u8>>, Vec<Vec<u8>>, Vec<Vec<u8>>, String)>
+    type RunOut = (Vec<u8>, Vec<Vec<u8>>, Vec<Vec<u8>>, Vec<Vec<u8>>, String);
+    fn run<V: TestVectorClient<16> + Aggregator<32, 16, AggregationParam = ()> + Collector>(v: &V, m: &V::Measurement, rand: &[u8], nonce: &[u8; 16], key: &[u8; 32]) -> Result<RunOut, String>
     where V::AggregateResult: std::fmt::Debug {
-        let (ps, shares) = v.shard_with_random(b"c14", m, nonce, rand).ok()?;
+        let (ps, shares) = v.shard_with_random(b"c14", m, nonce, rand).map_err(|e| format!("shard: {e}"))?;
         let mut states = Vec::new();
         let mut vs = Vec::new();
         for (j, s) in shares.iter().enumerate() {
-            let (st, v_) = v.verify_init(key, b"c14", j, &(), nonce, &ps, s).ok()?;
+            let (st, v_) = v.verify_init(key, b"c14", j, &(), nonce, &ps, s).map_err(|e| format!("verify_init: {e}"))?;
             states.push(st);
             vs.push(v_);
         }
         let vsb: Vec<Vec<u8>> = vs.iter().map(|x| x.get_encoded().unwrap()).collect();
-        let msg = v.verifier_shares_to_message(b"c14", &(), vs).ok()?;
+        let msg = v.verifier_shares_to_message(b"c14", &(), vs).map_err(|e| format!("s2m: {e}"))?;
         let mut outs = Vec::new();
         let mut aggs = Vec::new();
         for st in states {
-            if let VerifyTransition::Finish(o) = v.verify_next(b"c14", st, msg.clone()).ok()? {
+            if let VerifyTransition::Finish(o) = v.verify_next(b"c14", st, msg.clone()).map_err(|e| format!("verify_next: {e}"))? {
                 outs.push(o.get_encoded().unwrap());
-                aggs.push(v.aggregate(&(), [o]).ok()?);
+                aggs.push(v.aggregate(&(), [o]).map_err(|e| format!("aggregate: {e}"))?);
             }
         }
-        let res = v.unshard(&(), aggs, 1).ok()?;
-        Some((ps.get_encoded().unwrap(), shares.iter().map(|s| s.get_encoded().unwrap()).collect(), vsb, outs, format!("{res:?}")))
+        let res = v.unshard(&(), aggs, 1).map_err(|e| format!("unshard: {e}"))?;
+        Ok((ps.get_encoded().unwrap(), shares.iter().map(|s| s.get_encoded().unwrap()).collect(), vsb, outs, format!("{res:?}")))
     }
     let a = run(v1, m, &rand, &nonce, &key);
     let pool = rayon::ThreadPoolBuilder::new().num_threads(threads).build().unwrap();
-    let b = pool.install(|| guarded(|| run(v2, m, &rand, &nonce, &key))).ok().flatten();
+    let b = pool.install(|| guarded(|| run(v2, m, &rand, &nonce, &key))).unwrap_or_else(|p| Err(format!("panic: {p}")));
     match (a, b) {
-        (Some(a), Some(b)) => out.push(json!({"ev":"e2e","name":name,"threads":threads,"ok":true,"pub_serial":a.0,"pub_mt":b.0,"shares_serial":a.1,"shares_mt":b.1,
+        (Ok(a), Ok(b)) => out.push(json!({"ev":"e2e","name":name,"threads":threads,"ok":true,"pub_serial":a.0,"pub_mt":b.0,"shares_serial":a.1,"shares_mt":b.1,
                                             "vshares_serial":a.2,"vshares_mt":b.2,"outs_serial":a.3,"outs_mt":b.3,"result_serial":a.4,"result_mt":b.4})),
-        _ => out.push(json!({"ev":"e2e","name":name,"threads":threads,"ok":false,"pub_serial":[],"pub_mt":[],"shares_serial":[],"shares_mt":[],
+        (a, b) => out.push(json!({"ev":"e2e","name":name,"threads":threads,"ok":false,"err_serial":a.err(),"err_mt":b.err(),"pub_serial":[],"pub_mt":[],"shares_serial":[],"shares_mt":[],
                              "vshares_serial":[],"vshares_mt":[],"outs_serial":[],"outs_mt":[],"result_serial":"","result_mt":""})),
     }
 }
@@ -100,12 +101,21 @@ pub fn record(args: &[String]) {
             gadget_run::<Field64>(chunks, calls, t, &mut rng, &mut out);
         }
     }
+    // end to end: every relation between input length and chunk length (1, dividing, non-dividing, equal, one more,
+    // much larger than the input, single element), all three multithreaded aliases, several pool sizes
+    let lattice: Vec<(usize, usize)> = vec![(1, 1), (1, 3), (3, 10), (5, 6), (8, 8), (12, 4), (40, 7), (100, 9), (64, 1), (2, 2), (3, 8)];
     for &t in &threads {
-        e2e("SumVec(len 40, chunk 7)", &Prio3::new_sum_vec(2, 7, 40, 7).unwrap(), &Prio3::new_sum_vec_multithreaded(2, 7, 40, 7).unwrap(), &(0..40).map(|i| (i % 8) as u128).collect(), t, &mut rng, &mut out);
-        e2e("SumVec(len 3, chunk 10)", &Prio3::new_sum_vec(3, 1, 3, 10).unwrap(), &Prio3::new_sum_vec_multithreaded(3, 1, 3, 10).unwrap(), &vec![1, 0, 1], t, &mut rng, &mut out);
-        e2e("Histogram(len 100, chunk 9)", &Prio3::new_histogram(2, 100, 9).unwrap(), &Prio3::new_histogram_multithreaded(2, 100, 9).unwrap(), &57usize, t, &mut rng, &mut out);
-        e2e("MultihotCountVec(len 50, w 5, chunk 8)", &Prio3::new_multihot_count_vec(2, 50, 5, 8).unwrap(), &Prio3::new_multihot_count_vec_multithreaded(2, 50, 5, 8).unwrap(),
-            &(0..50).map(|i| i % 13 == 0).collect(), t, &mut rng, &mut out);
+        for &(len, chunk) in &lattice {
+            if !thorough && t != 1 && t != 3 && t != 16 && (len, chunk) != (40, 7) { continue; }
+            let maxm: u128 = if len % 2 == 0 { 7 } else { 5 };
+            e2e(&format!("SumVec(max {maxm}, len {len}, chunk {chunk})"), &Prio3::new_sum_vec(2, maxm, len, chunk).unwrap(), &Prio3::new_sum_vec_multithreaded(2, maxm, len, chunk).unwrap(),
+                &(0..len).map(|i| (i as u128) % (maxm + 1)).collect(), t, &mut rng, &mut out);
+            e2e(&format!("Histogram(len {len}, chunk {chunk})"), &Prio3::new_histogram(2, len, chunk).unwrap(), &Prio3::new_histogram_multithreaded(2, len, chunk).unwrap(),
+                &(len * 57 / 100), t, &mut rng, &mut out);
+            let w = 1 + len / 10;
+            e2e(&format!("MultihotCountVec(len {len}, w {w}, chunk {chunk})"), &Prio3::new_multihot_count_vec(3, len, w, chunk).unwrap(),
+                &Prio3::new_multihot_count_vec_multithreaded(3, len, w, chunk).unwrap(), &(0..len).map(|i| i % 13 == 0).collect(), t, &mut rng, &mut out);
+        }
     }
     let mut s = String::new();
     for e in &out {
